@@ -12,7 +12,7 @@ META = dict(
          "errno is also returned (and raised) by connect_ex for both client classes, raised by do_handshake for both TLS "
          "classes, and raised by sendto/recvfrom under a real UdpStack + SocketUdpNb, with console verbosity {0, profuse} x payload {ASCII, not "
          "valid UTF-8}, and for sendto through serviceTxPkts and serviceTxPktsOnce with queues of 2-3 packets to the same / "
-         "different destinations. Oracle = the statement's table: "
+         "different destinations, and for recvfrom with 2 and 3 consecutive transient errnos (all ordered pairs, 16 triples). Oracle = the statement's table: "
          "loss set (ECONNRESET, ENETRESET, ENETUNREACH, EHOSTUNREACH, ENETDOWN, EHOSTDOWN, ETIMEDOUT, ECONNREFUSED, TLS EOF) "
          "=> cutoff set, 0 / b'' returned, nothing raised; would-block => nothing raised and connection state unchanged; "
          "anything else => the same exception propagates; datagram stack: a loss-set errno on send keeps the packet for a "
@@ -420,6 +420,45 @@ def udp_case(op, e, p, loud=False, binary=False, entry="all", layout="AA"):
                              "serviceTxPkts()/serviceReceives() twice" % op))
 
 
+def udp_seq_case(errs, p):
+    """2 or 3 consecutive recvfrom() calls fail with transient destination errnos, then the two waiting datagrams
+    (or would-block) follow.  Oracle: nothing is raised, both datagrams are received, in order."""
+    set_loud(False)
+    fn = net.FakeNet()
+    FSM.net = fn
+    stk = M["stacking"].UdpStack(ha=(net.LOOP, 9000), name="udp")
+    ss = stk.handler.ss
+    other = fn.socket(type=net._socket.SOCK_DGRAM)
+    other.bind((net.LOOP, 9001))
+    other.sendto(b"d1", (net.LOOP, 9000))
+    other.sendto(b"d2", (net.LOOP, 9000))
+    ss.force("recvfrom", *[net.ERR(e) for e in errs])
+    names = ",".join(errno.errorcode[e] for e in errs)
+    p.evaluations += 1
+    p.nontrivial("udpseq|%s" % names)
+    raised = None
+    try:
+        for _ in range(len(errs) + 2):
+            stk.serviceReceives()
+    except Exception as ex:
+        raised = ex
+    rx = [bytes(pk.packed) for pk, ha in stk.rxPkts]
+    if raised is not None:
+        got = "raised" if isinstance(raised, OSError) else "raised-other(%s)" % type(raised).__name__
+    elif rx == [b"d1", b"d2"]:
+        got = "retried"
+    else:
+        got = "lost-or-repeated %r" % (rx,)
+    p.outcome("udp recvfrom x%d transient %s" % (len(errs), got.split(" ")[0]))
+    if got != "retried":
+        p.violation("UdpStack.recvfrom|consecutive-transient->%s" % got, "errnos=%s" % names,
+                    "UdpStack over SocketUdpNb: %d consecutive recvfrom() calls raising %s (transient destination errors) "
+                    "must all be retryable, observed '%s'" % (len(errs), names, got),
+                    dict(case=["udpseq", list(errs)], stack="UdpStack", socket_op="recvfrom", errnos=names, observed=got,
+                         raised=repr(raised), how="make the next recvfrom() calls raise the errnos in turn while two "
+                                                  "datagrams wait; call serviceReceives() repeatedly"))
+
+
 def finish_replay(pid, path, p):
     """Common tail of --replay: report whether the recorded case still violates the property."""
     if p.violations:
@@ -439,6 +478,8 @@ def run_case(c, p):
         connect_case(c[1], c[2], c[3], p)
     elif c[0] == "handshake":
         handshake_case(c[1], tuple(c[2]), p)
+    elif c[0] == "udpseq":
+        udp_seq_case(tuple(c[1]), p)
     else:
         udp_case(c[1], c[2], p, *c[3:7])
 
@@ -484,6 +525,14 @@ def cases():
             if (entry, layout) != ("all", "AA"):
                 for e in net.ALL_ERRNOS:
                     out.append(("udp", "sendto", e, False, False, entry, layout))
+    # consecutive transient errors on receive: every ordered pair, and triples (same errno / three in a row of the list)
+    loss = sorted(LOSS)
+    for e1 in loss:
+        for e2 in loss:
+            out.append(("udpseq", (e1, e2)))
+    for i, e1 in enumerate(loss):
+        out.append(("udpseq", (e1, e1, e1)))
+        out.append(("udpseq", (e1, loss[(i + 1) % len(loss)], loss[(i + 2) % len(loss)])))
     for op in ("sendto", "recvfrom"):
         for loud, binary in ((True, False), (False, True), (True, True)):
             for e in net.ALL_ERRNOS:
